@@ -98,7 +98,9 @@ class Membership:
         pats = rng.sample(PATTERNS, rng.randint(0, 3))
         if rng.random() < 0.35:
             # order-sensitive lists: a broad pattern followed by a re-inclusion (gitignore: last match wins)
-            pats = rng.choice([["*.h", "!b.h"], ["*.c", "!a.c", "*.F90"], ["inc/*", "!inc/b.h"], ["sub/*", "!sub/a.c", "d.cpp"]])
+            pats = rng.choice([["*.h", "!b.h"], ["*.c", "!a.c", "*.F90"], ["inc/*", "!inc/b.h"], ["sub/*", "!sub/a.c", "d.cpp"],
+                               # the same pattern twice with the opposite polarity in between (every occurrence counts)
+                               ["*.c", "!a.c", "*.c"], ["!b.h", "*.h", "!b.h"], ["sub/*", "!sub/a.c", "sub/*", "*.F90"]])
             for rel in ("b.h", "a.c", "inc/b.h", "sub/a.c", "d.cpp"):      # the re-included files exist
                 p = os.path.join(cb, rel)
                 os.makedirs(os.path.dirname(p), exist_ok=True)
